@@ -261,6 +261,21 @@ func ruleGoroutinesBounded(ctx *Ctx, r *Report, rule string, gs goSite) {
 	}
 	r.check(rule, gs.key+"|never-ending-workers-started-once-per-process", gs.instr.Pos(), ok,
 		"goroutine "+why+"; every reference to "+shortFn(spawner)+" must be (*sync.Once).Do on a package-level Once or init:"+detail)
+	// started once, needed for ever: nothing restarts these workers, so one that gives up (idle
+	// timeout, error) leaves later renders waiting on a channel nobody reads. The body may
+	// return only when its channel is exhausted.
+	cut := map[[2]*ssa.BasicBlock]bool{}
+	for _, l := range loops {
+		cut[[2]*ssa.BasicBlock{l.block, l.done}] = true
+	}
+	leaves := ""
+	for b := range reachableAvoidingEdges(fn, cut) {
+		if _, isRet := b.Instrs[len(b.Instrs)-1].(*ssa.Return); isRet {
+			leaves = ctx.pos(lastPos(b))
+		}
+	}
+	r.check(rule, gs.key+"|workers-started-once-never-give-up", gs.instr.Pos(), leaves == "",
+		"a worker that is started once per process returns only when its channel is closed; it can return at "+leaves)
 }
 
 func hasCycle(fn *ssa.Function) bool {
